@@ -788,7 +788,7 @@ fn one(out: &mut CaseRec, real: &mut Real, e: &E, style: u32, rng: &mut gv::rng:
         println!("program: {}\nreal:    {}\nref W:   {}", src, short(&v),
             w.result.as_ref().map(|t| refw::gluon_type(&refw::canon(t))).unwrap_or("untypable".into()));
     }
-    if known_poly_field && !replaying {
+    if known_poly_field {
         // gluon generalises record fields to first-class polymorphic types (typecheck.rs:989-);
         // the model is plain HM and does not reproduce the resulting known finding: these cases
         // are reported by the oracle and left out of the model/implementation comparison
